@@ -421,3 +421,118 @@ CELL_PY = {
     "ao22": lambda x: (x[0] and x[1]) or (x[2] and x[3]), "aoi22": lambda x: not ((x[0] and x[1]) or (x[2] and x[3])),
     "oai22": lambda x: not ((x[0] or x[1]) and (x[2] or x[3])), "mux2": lambda x: x[2] if x[0] else x[1],
 }
+
+
+# ---------------------------------------------------------------------------------------------
+# C18 (JIT): CLIF emitted by the real Cranelift front end == RTL terms, per comb-only design
+# ---------------------------------------------------------------------------------------------
+def run_clif_one(item, tier, work, cap):
+    label, path = item
+    try:
+        p = subprocess.run([PY, os.path.join(ROOT, "tv", "clif_worker.py"), label, path, tier, work],
+                           capture_output=True, text=True, timeout=cap)
+        return json.loads(p.stdout.strip().splitlines()[-1])
+    except Exception as e:  # noqa: BLE001
+        return dict(label=label, path=path, error=f"worker failed: {e}", modules=[])
+
+
+def run_c18_tv(tier, seed, only=None):
+    import gen_corpus
+    import hashlib
+    import re
+    t0 = time.time()
+    work = os.path.join(TARGET, "tvwork")
+    snips = os.path.join(work, "snips")
+    os.makedirs(snips, exist_ok=True)
+    if not build_tvdump():
+        return 2, dict(jit_tv="tvdump did not build")
+    items = []
+    for label, code in gen_corpus.gen_jit(seed):
+        h = hashlib.sha1(code.encode()).hexdigest()[:10]
+        p = os.path.join(snips, f"jit_{re.sub(r'[^A-Za-z0-9_]', '_', label)}_{h}.veryl")
+        if not os.path.exists(p):
+            open(p, "w").write(code)
+        items.append((label, p))
+    items += [i for i in corpus_mod.corpus(snips, seed) if i[0].startswith(("gen::", "verif::"))]
+    if tier == "thorough":
+        items += [i for i in corpus_mod.corpus(snips, seed) if i[0].startswith("integration::")]
+    if only:
+        items = [i for i in items if any(o in i[0] for o in only)]
+    jobs = int(os.environ.get("VERIF_JOBS", "16"))
+    cap = 200 if tier == "quick" else 900
+    with cf.ThreadPoolExecutor(max_workers=jobs) as ex:
+        results = list(ex.map(lambda it: run_clif_one(it, tier, work, cap), items))
+    stats = collections.Counter()
+    reasons = collections.Counter()
+    diffs, samples = [], []
+    queries = 0
+    for r in results:
+        if r.get("error"):
+            stats["error"] += 1
+            continue
+        for m in r["modules"]:
+            v = m["verdict"]
+            stats[v] += 1
+            queries += m.get("queries", 0)
+            if v in ("unsupported", "rtl_unsupported"):
+                reasons[m.get("why", "")[:60]] += 1
+            if v == "differs":
+                diffs.append((r, m))
+            if v == "equal" and len(samples) < 10:
+                samples.append(dict(design=r["label"], top=m["top"], outputs_compared=m.get("obligations"),
+                                    clif_functions=m.get("functions")))
+    known = load_known()
+    violations, known_lines, unrepro = [], [], []
+    for (r, m) in diffs:
+        key = f"{r['label']}::{m['top']}::{m.get('port')}"
+        sp = os.path.join(work, f"jitstim_{abs(hash(key)) % 10**8}.json")
+        rtlj = os.path.join(work, f"jitrtl_{abs(hash(key)) % 10**8}.json")
+        subprocess.run([TVDUMP, "rtl", r["path"], rtlj, m["top"]], capture_output=True)
+        try:
+            outs = [o["name"] for o in json.load(open(rtlj))["modules"][0]["rtl"]["outputs"]]
+        except Exception:  # noqa: BLE001
+            outs = [m.get("port")]
+        json.dump(dict(inputs=m["inputs"], outputs=outs), open(sp, "w"))
+        try:
+            p = subprocess.run([TVDUMP, "jitdiff", r["path"], m["top"], sp], capture_output=True, text=True, timeout=300)
+            out = json.loads(p.stdout.strip().splitlines()[-1])
+        except Exception as e:  # noqa: BLE001
+            out = dict(error=str(e))
+        if out.get("differ"):
+            rp = os.path.join(ROOT, "evidence", "replay",
+                              f"C18-{r['label'].replace('::', '_').replace('#', '_')}-{m['top']}.json")
+            os.makedirs(os.path.dirname(rp), exist_ok=True)
+            json.dump(dict(property="C18", design=r["label"], path=r["path"], top=m["top"], inputs=m["inputs"],
+                           solver=dict(port=m.get("port"), jit=m.get("jit_value"), rtl=m.get("rtl_value")),
+                           native=out, replay_cmd=f"{TVDUMP} jitdiff {r['path']} {m['top']} <inputs json>"),
+                      open(rp, "w"), indent=1)
+            kf = next((f for f in known.get("findings", []) if f["property"] == "C18" and f.get("design") == key), None)
+            if kf:
+                known_lines.append(f"KNOWN-FINDING: property=C18 {kf['what']} ({key})")
+            else:
+                violations.append((key, rp))
+        else:
+            unrepro.append((key, json.dumps(out)[:200]))
+    cov = dict(jit_tv=dict(designs=len(items), verdicts=dict(stats), queries_discharged=queries, samples=samples,
+                           not_covered=[dict(why=k, modules=v) for k, v in reasons.most_common(12)],
+                           unreproduced=[dict(design=k, native=o) for k, o in unrepro],
+                           wall_s=round(time.time() - t0, 1),
+                           functions_encoded=["veryl_simulator::backend::cranelift::{expression,statement,runtime}: the "
+                                              "Cranelift IR they emit for each design (read back through Config::dump_cranelift)"],
+                           bound="comb-only designs of the generated JIT corpus (operators x widths 1..128 x signedness, "
+                                 "shift amounts reaching and exceeding the width, mixed widths, ternary, concatenation) "
+                                 "and of the C19 corpus; all input values; CLIF subset of tv/clif.py; what Cranelift "
+                                 "does below the IR (instruction selection, register allocation) is outside"))
+    for line in known_lines:
+        print(line)
+    if violations:
+        for (k, rp) in violations:
+            print(f"VIOLATION property=C18 replay={rp}")
+        return 1, cov
+    proved = stats.get("equal", 0)
+    floor = 300 if not only else 0
+    if unrepro or proved < floor:
+        log(f"INCONCLUSIVE C18 jit part: {dict(stats)} unreproduced={unrepro[:3]} (floor {floor})")
+        return 2, cov
+    print(f"OK property=C18 jit-clif designs={proved} queries={queries}")
+    return 0, cov
